@@ -20,7 +20,8 @@ RULE = ("(a) universe members with sites/mutations/individuals/populations/migra
         "tree_sequence() and dump+load; (b) all raw edge tables of <=2|3 rows (l,r in {0,1,2}, p,c in {0,1,2}) x "
         "13 weak time orders; all site lists of <=2 positions from {-1,0,.5,1,L,nan}; all mutation tables of "
         "<=2 rows over site x node x parent x time alphabets; (c) every single-field substitution from boundary "
-        "alphabets in every table of each base, every row permutation/duplication/deletion, user indexes. "
+        "alphabets in every table of each base, every row permutation/duplication/deletion, user indexes; every "
+        "index-free spec is judged twice: as is (tree_sequence() builds the index) and with a ready-made index. "
         "non-trivial = the reference verdict is INVALID or the collection has >=1 edge")
 ASSUMPTIONS = [
     "reference predicate transcribed from docs/data-model.md 'Valid tree sequence requirements'",
@@ -197,6 +198,20 @@ def judge(spec, acc, fam, via_load=False, nontrivial=None):
                  f"reference says INVALID ({reason}) but tree_sequence() succeeded", case)
     elif ver == V.INVALID and not isinstance(err, (tskit.LibraryError, ValueError, TypeError, OverflowError)):
         acc.fail(fam + ":wrong-exception", repr(err), case)
+    if spec.get("index") is None and spec.get("file_index") is None and not fam.endswith("+idx") and spec.get("edges"):
+        # the same rows with a ready-made index attached (as after sort()/build_index() followed by an edit
+        # of another table): tree_sequence() then skips its own build_index(), and every requirement must
+        # still be enforced by the gate itself
+        try:
+            e = spec["edges"]
+            tm = [spec["nodes"][x[2]][1] for x in e]
+            I = sorted(range(len(e)), key=lambda k: (e[k][0], tm[k], e[k][2], e[k][3]))
+            O = sorted(range(len(e)), key=lambda k: (e[k][1], -tm[k], -e[k][2], -e[k][3]))
+        except Exception:  # noqa: references out of range / unorderable values: no index to compute
+            I = None
+        if I is not None:
+            judge(dict(spec, index=(I, O)), acc, fam + "+idx", nontrivial=nt)
+            acc.enter(case)
     if spec.get("index") is not None and build_err is None:
         # an explicit build_index() replaces whatever index was there (stale, user-supplied): afterwards the
         # verdict is that of the rows alone
